@@ -109,6 +109,10 @@ static std::string handle(const std::vector<std::string>& a) {
         size_t n = 0;
         if (v.is<JsonArrayConst>()) for (JsonVariantConst e : v.as<JsonArrayConst>()) n += 1 + slotsOf(e);
         else if (v.is<JsonObjectConst>()) for (JsonPairConst kv : v.as<JsonObjectConst>()) n += 2 + slotsOf(kv.value());
+        else if (const detail::VariantData* d = detail::VariantAttorney::getData(v)) {
+          using detail::VariantType;       // a double or a 64-bit integer keeps its bytes in an extension slot
+          if (d->type() == VariantType::Double || d->type() == VariantType::Int64 || d->type() == VariantType::Uint64) n += 1;
+        }
         return n;
       };
       size_t used = 6 + slotsOf(doc["src"]);
